@@ -438,6 +438,64 @@ def hover_case(rng, src, targets, docs, k):
     return " ".join(items)
 
 
+# ---- cross-file hover (seeded/C13-7: the documentation comment was looked up by the declaration's LINE NUMBER in the
+# REQUESTING file).  File 0 = a generated declaration file (hover_file), file 1 = uses of file 0's GLOBALS whose own lines
+# carry decoy comments on every line number (trailing comments on the use lines, comment-only lines between them), or no
+# comment at all.  `H:<line>:<col>` names, per hover step on file 1, the declaration's position in file 0: the model side
+# (ocaml/c13_run.ml) demands the hover text of the declaration in the DECLARING file.
+def xhover_case(rng):
+    while True:
+        src, targets, docs = hover_file(rng)
+        if src.startswith("\ufeff"):
+            continue
+        nl = "\r\n" if "\r\n" in src else "\n"
+        lines = src.split(nl)
+        gl = []
+        for (ln, a, b) in targets:
+            st = lines[ln].lstrip(" \t")
+            if st.startswith(("local", "print(", "do print(", "function use", "if true")):
+                continue
+            gl.append((ln, a, b, lines[ln][a:b]))
+        if gl:
+            break
+    style = rng.choice(["full", "full", "full", "lead", "none"])
+    nuse = rng.choice([1, 2, 3])
+    picks = [[rng.choice(gl) for _ in range(rng.choice([1, 2]))] for _ in range(nuse)]
+    blines, spots = [], []                      # spots: (line in B, col_lo, col_hi, decl spot)
+    total = max(len(lines) + 2, 2 * nuse + 1) if style != "none" else nuse
+    pending = list(picks)
+    for i in range(total):
+        use_here = pending and (style == "none" or i % 2 == 1 or total - i <= len(pending))
+        if use_here:
+            pk = pending.pop(0)
+            pre = rng.choice(["print(", "  print(", "local _ = {", "\tprint(1, "])
+            col = len(pre)
+            for g in pk:
+                spots.append((i, col, col + len(g[3]), g))
+                col += len(g[3]) + 2
+            text = pre + ", ".join(g[3] for g in pk) + ("}" if pre.endswith("{") else ")")
+            if style == "full":
+                text += " -- decoy trailing %d" % i
+            blines.append(text)
+        elif style == "none":
+            blines.append("")
+        else:
+            blines.append(rng.choice(["", "  "]) + "-- decoy block %d" % i)
+    bsrc = nl.join(blines) + rng.choice(["", nl])
+    an, bn = rng.choice([("a.lua", "b.lua"), ("a.lua", "b.lua"), ("z.lua", "b.lua"), ("lib/defs.lua", "main.lua")])
+    items = ["F:%s:%s" % (hexs(an.encode()), hexs(src.encode("utf8"))), "F:%s:%s" % (hexs(bn.encode()), hexs(bsrc.encode("utf8")))]
+    items += rng.choice([["S:open:0", "S:open:1"], ["S:open:1", "S:open:0"], ["S:open:1"]])
+    hints = []
+    for (l, a, b, g) in spots:
+        items.append("S:hover:1:%d:%d" % (l, rng.randint(a, b)))
+        hints.append("H:%d:%d" % (g[0], rng.randint(g[1], g[2])))
+    items += hints
+    for d in sorted(set(docs)):
+        if d and any(0x80 <= ord(c) < 0x800 for c in d):
+            items.append("G:" + hexs(d.encode("utf8")))
+    return " ".join(items)
+
+
 HOVER_FIXED = [
     # long-bracket comments as documentation (fix C13-long-comment-doc): one line, several lines, `--]]` closing style, level 2,
     # mixed with `--` lines (a long-bracket comment is a block of its own), trailing long-bracket comment
@@ -469,11 +527,20 @@ def gen_hover(rng, tier):
     for k in range(n):
         src, targets, docs = hover_file(rng)
         out.append(hover_case(rng, src, targets, docs, rng.choice([1, 2, 3, 4])))
+    for k in range(n // 8):
+        out.append(xhover_case(rng))
     return out
 
 
 def shrink_hover(case):
     its = case.split(" ")
+    if sum(1 for x in its if x.startswith("F:")) > 1:         # cross-file case: one hover step with its H: hint
+        hs = [x for x in its if x.startswith("S:hover")]
+        hh = [x for x in its if x.startswith("H:")]
+        if len(hs) > 1 and len(hs) == len(hh):
+            for st, h in zip(hs, hh):
+                yield " ".join([x for x in its if x.startswith(("F:", "S:open"))] + [st, h] + [x for x in its if x.startswith("G:")])
+        return
     f = [x for x in its if x.startswith("F:")][0]
     steps = [x for x in its if x.startswith("S:hover")]
     rest = [x for x in its if x.startswith("G:")]
@@ -514,4 +581,5 @@ def main(tier, seed):
                                            "C13_comment_attach_file / _decl / C13_hover_file cover files whose gaps consist of white space, LF/CRLF line breaks and `--text` comments not starting with `[` (boolean class file_gaps <> None; key-disjointness of different gaps is proved there, not assumed) and that the parser reads to the end; gaps with long-bracket comments, `--[x` comments, lone CR / LFCR are covered by correspondence (legs c13.cmap, c13.hover) only",
                                            "long-bracket comments (fix C13-long-comment-doc, variant flag fx of Model/Comments.v; C13_VARIANT=prefix runs the pre-fix model): proved for EVERY file: the deployed lexer differs from the shared model only in the text kept for long-bracket comments (C13_deployed_differs_in_long_text_only) and coincides with it on files with structured gaps (C13_deployed_is_shared_on_class, C13_comment_attach_file_deployed); for files of file_class_long (gaps of white space, LF/CRLF, `--text` and closed long-bracket comments, no two blocks under one line) the demand spec_attach(file_blocks) - a long-bracket comment is a block of its own and counts as documentation - is stated from the bytes (C13_comment_attach_long_full) and decided by correspondence (leg c13.hover), not yet by proof; 'the trailing comment on its line' is read as the line of the declaration's identifier (a comment behind a multi-line initialiser is not the declaration's)",
                                            "the hover model of the driver (hover_with_v) follows, for a function, the last link of the server's chain of definitions: the function expression, whose comment is looked up on the line of `end` (class inherited_doc); C13_hover_file is proved for hover_with (without that link), C13_hover_file_v_full is stated only",
-                                           "the spec column of leg c13.hover: for a file of file_class the documentation demanded is spec_comment on the declarative table of the file's comment lines (file_table), the statement of C13_comment_attach_file; for a file of file_class_long spec_attach on file_blocks (blocks computed from the bytes; long-bracket comments count); otherwise spec_attach on the recorded entries, stated only for files whose comments are all `--` line comments"])
+                                           "the spec column of leg c13.hover: for a file of file_class the documentation demanded is spec_comment on the declarative table of the file's comment lines (file_table), the statement of C13_comment_attach_file; for a file of file_class_long spec_attach on file_blocks (blocks computed from the bytes; long-bracket comments count); otherwise spec_attach on the recorded entries, stated only for files whose comments are all `--` line comments",
+                                           "cross-file hover (two-file cases of leg c13.hover, `H:` items): Model/Hover.v resolves a name inside ONE file; for a hover on a use in ANOTHER file of a global / global function that file 0 declares, the driver (ocaml/c13_run.ml) demands the model's and the spec's hover text at the declaration position in the DECLARING file (label, documentation = the declaring file's comment, the declaring file's name) after checking that the same word stands under both positions; that a global used in one file resolves to the single top-level declaration in the other file is not modelled here (binder family C05/C06), it is part of the correspondence observed on the generated cases; members of tables are not covered (outside the label forms of Model/Hover.v)"])
